@@ -68,9 +68,12 @@ func createShellFunctions() {
 		s := env.(*eval.State)
 		if s.Term != nil {
 			s.Term.Suspend()
+			// no timeout while the user interacts with the command; outside of interactive mode
+			// the command (and what follows it) stays under the deadline of the evaluation.
+			//nolint:fatcontext // we do need to update/reset the context and its cancel function.
+			s.Context, s.Cancel = context.WithCancel(context.Background())
+			defer func() { s.Context, s.Cancel = s.Term.Resume(context.Background()) }()
 		}
-		//nolint:fatcontext // we do need to update/reset the context and its cancel function.
-		s.Context, s.Cancel = context.WithCancel(context.Background()) // no timeout.
 		cmd, oerr := createCmd(*s, args)
 		if oerr != nil {
 			return *oerr
@@ -80,9 +83,6 @@ func createShellFunctions() {
 		cmd.Stdout = os.Stdout
 		cmd.Stderr = os.Stderr
 		err := cmd.Run()
-		if s.Term != nil {
-			s.Context, s.Cancel = s.Term.Resume(context.Background())
-		}
 		if err != nil {
 			return s.Error(err)
 		}
